@@ -646,8 +646,23 @@ class W2(nn.Module):
         return self.o(torch.relu(self.c(torch.relu(self.b(torch.relu(self.a(x)))))))
 
 
-FAMILIES.update({'O1': O1, 'W2': W2})
-_SHAPES.update({'O1': lambda s: (s.get('cin', 1), 2), 'W2': lambda s: (s.get('cin', 1), 2) if s.get('nd', 1) == 1 else (s.get('cin', 1), 2, 2)})
+class Z1(nn.Module):
+    """a sub-module the user may freeze (conv -> ReLU -> Dropout, an nn.Sequential) followed by conv -> flatten -> linear; the ReLU and Dropout
+    modules are not converted, so the user's model and the converted one share them"""
+
+    def __init__(self, C=2, cin=1, nd=2, HW=2):
+        super().__init__()
+        conv = nn.Conv1d if nd == 1 else nn.Conv2d
+        self.frozen = nn.Sequential(conv(cin, C, 1), nn.ReLU(), nn.Dropout(0.5))
+        self.c1 = conv(C, C, 1)
+        self.fc = nn.Linear(C * (HW if nd == 1 else HW * HW), 2)
+
+    def forward(self, x):
+        return self.fc(torch.relu(self.c1(self.frozen(x))).flatten(1))
+
+
+FAMILIES.update({'O1': O1, 'W2': W2, 'Z1': Z1})
+_SHAPES.update({'Z1': lambda s: (s.get('cin', 1), s.get('HW', 2)) if s.get('nd', 2) == 1 else (s.get('cin', 1), s.get('HW', 2), s.get('HW', 2)), 'O1': lambda s: (s.get('cin', 1), 2), 'W2': lambda s: (s.get('cin', 1), 2) if s.get('nd', 1) == 1 else (s.get('cin', 1), 2, 2)})
 
 
 def flat_outputs(y):
